@@ -265,7 +265,7 @@ def first_diff(a, b):
 class Processes(Unit):
     name = "hashseed-process-clock"
     rule = ("every pipeline item (recompile x lazy, TTX import, TTX dump, feaLib compile of the corpus .fea files, subset x 4 option sets, every pair of characters of the fonts with AAT / colour / MATH tables with and without .notdef, generated multi-script feature files with aalt, a COLR v0+v1 font, generated AAT morx ligature subtables with several equally long action lists, instancer x 3 limit kinds, varLib.build of corpus + generated designspaces, merge, TTC save, WOFF/WOFF2 save; ~700 items) executed in separate processes under "
-            "PYTHONHASHSEED in {0,1,2,3} (thorough: 0..11), plus seed 0 with the wall clock shifted by +1e6 s with SOURCE_DATE_EPOCH pinned, SOURCE_DATE_EPOCH unset with recalcTimestamp=False at clock offsets 0 and +1e6 s, and SOURCE_DATE_EPOCH=0 at clock offsets 0 and +1e6 s: the sha256 of every output must be identical across all runs; "
+            "PYTHONHASHSEED in {0,1,2,3} (thorough: 0..11), plus seed 0 with the wall clock shifted by +1e6 s with SOURCE_DATE_EPOCH pinned, seed 0 under two TZ settings with daylight saving (northern / southern), SOURCE_DATE_EPOCH unset with recalcTimestamp=False at clock offsets 0 and +1e6 s, and SOURCE_DATE_EPOCH=0 at clock offsets 0 and +1e6 s: the sha256 of every output must be identical across all runs; "
             "distinct = pipeline items whose output is not an exception")
     in_parent = True
     chunk = 1
@@ -281,6 +281,9 @@ class Processes(Unit):
         for s in range(nseeds):
             runs.append(("hashseed=%d" % s, {"PYTHONHASHSEED": str(s)}, []))
         runs.append(("hashseed=0,clock+1e6", {"PYTHONHASHSEED": "0"}, ["--clock-offset", "1000000"]))
+        # the process time zone (POSIX rule strings: no zone database needed), with daylight saving on either hemisphere
+        runs.append(("hashseed=0,tz=EST5EDT", {"PYTHONHASHSEED": "0", "TZ": "EST5EDT,M3.2.0,M11.1.0"}, []))
+        runs.append(("hashseed=0,tz=AEST-10AEDT", {"PYTHONHASHSEED": "0", "TZ": "AEST-10AEDT,M10.1.0,M4.1.0/3"}, []))
         runs.append(("noepoch,norecalc,clock+0", {"PYTHONHASHSEED": "1", "SOURCE_DATE_EPOCH": None}, ["--no-recalc-timestamp"]))
         runs.append(("noepoch,norecalc,clock+1e6", {"PYTHONHASHSEED": "2", "SOURCE_DATE_EPOCH": None}, ["--no-recalc-timestamp", "--clock-offset", "1000000"]))
         # the timestamp pinned at the epoch itself (the value 0 is a value, not "unset")
@@ -342,7 +345,7 @@ class Processes(Unit):
                 for label in group[1:]:
                     v = results[label].get(name)
                     if v != ref[name]:
-                        cls = "clock" if ("clock" in label or why in ("clock", "epoch0")) else "hashseed"
+                        cls = "clock" if ("clock" in label or why in ("clock", "epoch0")) else ("timezone" if "tz=" in label else "hashseed")
                         rec.violation("nondeterministic:%s:%s" % (kind, cls),
                                       "pipeline item %r: output digest %s under %s but %s under %s" % (name, ref[name], ref_label, v, label), case=[name, label])
         rec.trace(len(results))
